@@ -773,10 +773,33 @@ Proof.
   intros [[m ->]|[[t ->]|[u [g ->]]]] H1 H3; cbn [cow_step]; unfold cow_meta; rewrite H1, H3; reflexivity.
 Qed.
 
+(* CacheOnReadFs.copyToLayer (Model/Cache.v cache_copy_to_layer, since the fix): the base's Stat first; for a
+   base entry that is NOT a directory it is Union's copyToLayer on the base state the Stat left *)
+Lemma cache_copy_dir_mkdir_is_1 : cache_copy_dir_mkdir = 1. Proof. reflexivity. Qed.
+Lemma copyfiletolayer_clears_append_is_1 : copyfiletolayer_clears_append = 1. Proof. reflexivity. Qed.
+
+Lemma cache_copy_nondir sb sl name sb1 bfi :
+  bstep sb (Stat name) = (sb1, RInfo bfi) -> fi_dir bfi = false ->
+  cache_copy_to_layer bstep lstep sb sl name = copy_to_layer bstep lstep sb1 sl name.
+Proof.
+  intros H1 H2. unfold cache_copy_to_layer. rewrite cache_copy_dir_mkdir_is_1. cbn [Z.eqb Pos.eqb].
+  rewrite H1, H2. reflexivity.
+Qed.
+
+(* ... and when the base's Stat fails (e.g. a fault on the base side) the copy is attempted all the same *)
+Lemma cache_copy_stat_fails sb sl name :
+  (forall fi, snd (bstep sb (Stat name)) <> RInfo fi) ->
+  cache_copy_to_layer bstep lstep sb sl name = copy_to_layer bstep lstep (fst (bstep sb (Stat name))) sl name.
+Proof.
+  intros H. unfold cache_copy_to_layer. rewrite cache_copy_dir_mkdir_is_1. cbn [Z.eqb Pos.eqb].
+  destruct (bstep sb (Stat name)) as [sb1 r]. cbn [fst snd] in *. destruct r; try reflexivity.
+  exfalso. exact (H fi eq_refl).
+Qed.
+
 Lemma cache_open_miss_reports dur now sb sl tbl name sb1 sl1 fi sb2 bfi sb3 sl2 ce :
   cache_status bstep lstep dur now sb sl name = (sb1, sl1, CMiss, fi, None) ->
   bstep sb1 (Stat name) = (sb2, RInfo bfi) -> fi_dir bfi = false ->
-  copy_to_layer bstep lstep sb2 sl1 name = (sb3, sl2, Some ce) ->
+  cache_copy_to_layer bstep lstep sb2 sl1 name = (sb3, sl2, Some ce) ->
   cache_step bstep lstep dur now (sb, sl, tbl) (Open name) = ((sb3, sl2, tbl), RErr ce).
 Proof.
   intros H1 H2 H3 H4. cbn [cache_step]. rewrite H1, H2, H3, H4. reflexivity.
@@ -784,19 +807,25 @@ Qed.
 
 Lemma cache_open_stale_reports dur now sb sl tbl name sb1 sl1 f sb3 sl2 ce :
   cache_status bstep lstep dur now sb sl name = (sb1, sl1, CStale, Some f, None) -> fi_dir f = false ->
-  copy_to_layer bstep lstep sb1 sl1 name = (sb3, sl2, Some ce) ->
+  cache_copy_to_layer bstep lstep sb1 sl1 name = (sb3, sl2, Some ce) ->
   cache_step bstep lstep dur now (sb, sl, tbl) (Open name) = ((sb3, sl2, tbl), RErr ce).
 Proof.
   intros H1 H3 H4. cbn [cache_step]. rewrite H1, H3, H4. reflexivity.
 Qed.
 
+(* CacheOnReadFs.OpenFile: copyFileToLayer opens the base with the caller's flags less O_APPEND (since the
+   fix, copyfiletolayer_clears_append = 1); its error is the result *)
 Lemma cache_openfile_reports dur now sb sl tbl name flag perm sb1 sl1 cs fi sb2 sl2 ce :
   cache_status bstep lstep dur now sb sl name = (sb1, sl1, cs, fi, None) -> cs = CMiss \/ cs = CStale ->
-  copy_to_layer_with bstep lstep sb1 sl1 name (OpenFile name flag perm) = (sb2, sl2, Some ce) ->
+  copy_to_layer_with bstep lstep sb1 sl1 name (OpenFile name (Z.land flag (Z.lnot o_append)) perm) = (sb2, sl2, Some ce) ->
   cache_step bstep lstep dur now (sb, sl, tbl) (OpenFile name flag perm) = ((sb2, sl2, tbl), RErr ce).
 Proof.
-  intros H1 Hcs H4. cbn [cache_step]. rewrite H1. destruct Hcs as [->| ->]; rewrite H4; reflexivity.
+  intros H1 Hcs H4. cbn [cache_step]. rewrite H1, copyfiletolayer_clears_append_is_1. cbn [Z.eqb Pos.eqb].
+  destruct Hcs as [->| ->]; rewrite H4; reflexivity.
 Qed.
+
+(* the read-only OpenFile of the callers stays read-only: O_RDONLY &^ O_APPEND = O_RDONLY *)
+Lemma rdonly_clears_append : Z.land o_rdonly (Z.lnot o_append) = o_rdonly. Proof. reflexivity. Qed.
 End Callers.
 
 (* a file that only the base holds, MemMapFs base, MemMapFs layer behind the injector *)
@@ -836,4 +865,50 @@ Proof.
   - destruct rc as [ce|].
     + apply (cow_openfile_reports _ _ _ _ _ _ _ _ _ _ _ _ _ Eb Hfl E).
     + apply (cow_openfile_copied _ _ _ _ _ _ _ _ _ _ _ _ Eb Hfl E).
+Qed.
+
+(* ---------------------------------------------------------------- CacheOnReadFs.copyToLayer *)
+(* cache_copy_to_layer (Open / Chtimes / Chmod / Chown / Rename of the cache on a miss or a stale copy) on a
+   regular base file: the base's Stat, then the copy above — same three-way outcome *)
+Theorem cache_copy_atomic_layer name pl sb sl dat n0 :
+  normalize_path name = name -> name_acyclic name -> amo_from pl n0 ->
+  reg_file sb name dat -> layer_sane sl name ->
+  exists sb' sl' n' r,
+    cache_copy_to_layer m_step (faulty_step m_step pl) sb (sl, n0) name = (sb', (sl', n'), r) /\
+    cosmetic sb sb' /\ layer_sane sl' name /\ (n0 <= n')%nat /\ (r <> None -> fault_used pl n0 n') /\
+    three_way sl sl' name dat r.
+Proof.
+  intros Hn Hac Hamo Hb Hs. pose proof Hb as (f & n & L & G & A & D).
+  assert (Hst : m_step sb (Stat name) = (bump sb, RInfo (finfo_of n))) by (apply (stat_found sb name f n); [now rewrite Hn | exact G]).
+  rewrite (cache_copy_nondir m_step (faulty_step m_step pl) sb (sl, n0) name (bump sb) (finfo_of n) Hst A).
+  destruct (copy_atomic_layer name pl (bump sb) sl dat (Open name) n0 Hn Hac Hamo
+              (cosmetic_reg_file _ _ _ _ (cosmetic_bump sb) Hb) Hs (or_introl eq_refl))
+    as (sb' & sl' & n' & r & E & C & S' & N & U & T).
+  exists sb', sl', n', r. split; [exact E|]. split; [|now repeat split].
+  eapply cosmetic_trans; [apply cosmetic_bump | exact C].
+Qed.
+
+(* faults on the BASE side: the Stat may be refused — the copy is attempted all the same *)
+Theorem cache_copy_atomic_base name pl sb nB sl dat :
+  normalize_path name = name -> name_acyclic name ->
+  reg_file sb name dat -> layer_sane sl name ->
+  exists sb' n' sl' r,
+    cache_copy_to_layer (faulty_step m_step pl) m_step (sb, nB) sl name = ((sb', n'), sl', r) /\
+    cosmetic sb sb' /\ layer_sane sl' name /\ three_way sl sl' name dat r.
+Proof.
+  intros Hn Hac Hb Hs. pose proof Hb as (f & n & L & G & A & D).
+  assert (Hst : m_step sb (Stat name) = (bump sb, RInfo (finfo_of n))) by (apply (stat_found sb name f n); [now rewrite Hn | exact G]).
+  destruct (faulty_plain m_step pl sb nB (Stat name) eq_refl) as [H|(e & He & H)].
+  - rewrite Hst in H. cbn [fst snd] in H.
+    rewrite (cache_copy_nondir (faulty_step m_step pl) m_step (sb, nB) sl name (bump sb, S nB) (finfo_of n) H A).
+    destruct (copy_atomic_base name pl (bump sb) (S nB) sl dat (Open name) Hn Hac
+                (cosmetic_reg_file _ _ _ _ (cosmetic_bump sb) Hb) Hs (or_introl eq_refl))
+      as (sb' & n' & sl' & r & E & C & S' & T).
+    exists sb', n', sl', r. split; [exact E|]. split; [|now split].
+    eapply cosmetic_trans; [apply cosmetic_bump | exact C].
+  - rewrite (cache_copy_stat_fails (faulty_step m_step pl) m_step (sb, nB) sl name) by (rewrite H; cbn [snd]; discriminate).
+    rewrite H. cbn [fst].
+    destruct (copy_atomic_base name pl sb (S nB) sl dat (Open name) Hn Hac Hb Hs (or_introl eq_refl))
+      as (sb' & n' & sl' & r & E & C & S' & T).
+    exists sb', n', sl', r. split; [exact E|]. split; [exact C | split; [exact S' | exact T]].
 Qed.
